@@ -394,8 +394,13 @@ PROPS["C09"] = dict(
     title="persist(SyncData|SyncAll) makes all earlier writes power-loss durable",
     modules=["FjallModel.Props.C09"],
     theorems=["Fjall.Journal.c09_sync_durable", "Fjall.Journal.c09_manual_buffer", "Fjall.Journal.c09_inv_after_write", "Fjall.Journal.c09_inv_after_persist",
-              "Fjall.Journal.c09_rotate_seals_durably"],
+              "Fjall.Journal.c09_rotate_seals_durably", "Fjall.Journal.c09_journal_files_survive_power_loss", "Fjall.Journal.c09_fresh_filesOk",
+              "Fjall.Journal.c09_rotate_without_folder_sync_loses_file"],
     statements={
+        "c09_journal_files_survive_power_loss": "for every operation sequence with any number of journal rotations under any fault plan, from a state satisfying FilesOk (the fresh database does: c09_fresh_filesOk): "
+                                                "after a power loss every journal file created so far is in the folder, the sealed ones whole, the active one up to its last sync (rests on the folder fsync in rotate, "
+                                                "which is an event of the compared trace)",
+        "c09_rotate_without_folder_sync_loses_file": "without the folder fsync (seeded change C09-7) a write made durable with SyncAll after a rotation sits in a file a power loss removes",
         "c09_sync_durable": "under every fault plan: persist(SyncData|SyncAll) = Ok implies the user-space buffer is empty and synced = file length",
         "c09_rotate_seals_durably": "a successful journal rotation leaves the sealed file holding every byte handed to the writer before it, all covered by the fsync; the new file starts empty",
         "c09_manual_buffer": "persist(Buffer) = Ok implies the user-space buffer is empty (manual journal persist)",
@@ -404,12 +409,12 @@ PROPS["C09"] = dict(
     engines=[dict(bin="fault", args=["--mode", "c09"], cases_quick=64, cases_thorough=320, profiles=["release"], shards=8, timeout_quick=900)],
     rule="case = journal workload (insert, remove, clear, batches with every durability incl. none, persist with every mode; values 0 B .. 9000 B so that the 8 KiB "
          "BufWriter overflows and is bypassed; journal rotations; manual persist on/off; lz4/none) run in a child process under the shim: (1) the syscall trace (write sizes, fsync / "
-         "fdatasync) must equal the Lean writer model's trace and the file bytes the model's bytes; (2) power-loss images: the child is killed before syscall n "
+         "fdatasync, creation of a journal file, fsync of the journal folder) must equal the Lean writer model's trace and the file bytes the model's bytes; (2) power-loss images: the child is killed before syscall n "
          "(sampled; all n in thorough), every journal file is cut to the length covered by its own last successful sync (from the shim log, per file descriptor), the active one zero-padded, reopened: the "
          "content must be the state of a prefix of the operations containing everything acknowledged before the last acknowledged sync. non-trivial = a sync "
          "persist occurs strictly inside the workload",
     trusted_base=WR_TB + JOURNAL_TB,
-    assumptions=["fsync/fdatasync make all previously written bytes of the file durable"],
+    assumptions=["fsync/fdatasync make all previously written bytes of the file durable", "fsync of a directory makes the entries of the files created in it before durable"],
     level_text="Lean 4 theorems about the BufWriter + writer state machine under arbitrary fault plans; tied to the real process by syscall-trace equality and byte equality, "
                "plus power-loss images reopened with the real crate",
     level_note="partial: the device and file-system layers below the syscalls are assumed, rotation / drop are covered by the same persist theorem",
